@@ -1108,3 +1108,126 @@ _run_c14b = run
 def run(ctx, R):
     _run_c14b(ctx, R)
     r1411(ctx, R)
+
+
+# functions whose result is a timestamp, never None (read, not inferred)
+TIMESTAMP_FUNCS = {
+    'oslo_utils.timeutils.utcnow': 'the clock',
+    'placement.util.pick_last_modified':
+        'the later of its first argument and the object\'s updated_at / '
+        'created_at, the clock when the object has neither',
+    'max': 'of timestamps',
+}
+# attributes that hold the timestamp of a stored row
+ROW_TIMESTAMPS = ('updated_at', 'created_at')
+
+
+def _never_none(ctx, f, e, depth=0, path=None):
+    """(ok, why): expression e (a path value of function f) cannot be None."""
+    from psa import pathval
+    if path is not None:
+        es = src(e)
+
+        def settles(a, pol):
+            if pol and src(a) == es:
+                return True             # tested truthy
+            if isinstance(a, ast.Compare) and len(a.ops) == 1 and \
+                    src(a.left) == es and isinstance(
+                        a.comparators[0], ast.Constant) and \
+                    a.comparators[0].value is None:
+                return (isinstance(a.ops[0], ast.IsNot) and pol) or (
+                    isinstance(a.ops[0], ast.Is) and not pol)
+            return False
+        if pathval.holds(path, settles):
+            return True, 'tested on the path'
+    if isinstance(e, ast.Constant):
+        return e.value is not None, 'constant %r' % (e.value,)
+    if isinstance(e, ast.BoolOp) and isinstance(e.op, ast.Or):
+        # ``a or b`` is b whenever a is None
+        return _never_none(ctx, f, e.values[-1], depth)
+    if isinstance(e, ast.IfExp):
+        for x in (e.body, e.orelse):
+            ok, why = _never_none(ctx, f, x, depth)
+            if not ok:
+                return ok, why
+        return True, 'both arms'
+    if isinstance(e, ast.Attribute) and e.attr in ROW_TIMESTAMPS:
+        return True, 'timestamp of a stored row'
+    idx = None
+    if isinstance(e, ast.Subscript) and isinstance(
+            e.slice, ast.Constant) and isinstance(e.slice.value, int):
+        idx = e.slice.value
+        e = e.value
+    if isinstance(e, ast.Call):
+        d = ctx.prog.dotted(f.module, e.func, f) or src(e.func)
+        if d in TIMESTAMP_FUNCS and idx is None:
+            return True, d
+        tgt = ctx.prog.lookup(d)
+        gs = tgt if isinstance(tgt, list) else []
+        if not gs or depth > 2:
+            return False, 'result of %s' % src(e.func)
+        for g in gs:
+            ps = pathval.paths_of(g, lambda st: isinstance(st, ast.Return))
+            seen = False
+            for p in ps:
+                rs = [s for s in p.stmts if isinstance(s, ast.Return)]
+                if not rs:
+                    continue
+                seen = True
+                rv = rs[-1].value
+                if rv is None:
+                    return False, '%s returns nothing on a path' % g.name
+                if idx is not None:
+                    if not (isinstance(rv, ast.Tuple) and
+                            idx < len(rv.elts)):
+                        return False, '%s: result not a tuple' % g.name
+                    rv = rv.elts[idx]
+                ok, why = _never_none(
+                    ctx, g, p.value_at(rs[-1], rv), depth + 1, path=p)
+                if not ok:
+                    return False, '%s line %d returns %s' % (
+                        g.name, rs[-1].lineno, why)
+            if not seen:
+                return False, '%s: no return seen' % g.name
+        return True, 'every return of %s' % src(e.func)
+    return False, src(e)[:60]
+
+
+def r1412(ctx, R):
+    """From 1.15 on every response with a body carries Last-Modified: webob
+    drops the header when it is assigned None, so the value a handler
+    assigns is a timestamp on every path - the newest one of what is listed
+    and, when nothing is listed, the clock."""
+    from psa import pathval
+    n = 0
+    for f in sorted(ctx.prog.funcs, key=lambda x: x.qname):
+        if not f.module.name.startswith('placement.handlers.'):
+            continue
+        sts = [a for a in own_nodes(f.node) if isinstance(a, ast.Assign)
+               and any(isinstance(t, ast.Attribute) and
+                       t.attr == 'last_modified' for t in a.targets)]
+        if not sts:
+            continue
+        ps = pathval.paths_of(f, lambda st: st in sts)
+        for s in sts:
+            n += 1
+            ok, why = True, 'a timestamp on every path'
+            for p in ps:
+                if s not in p.stmts:
+                    continue
+                o, w = _never_none(ctx, f, p.value_at(s, s.value), path=p)
+                if not o:
+                    ok, why = False, w
+                    break
+            R.ob('R14.12', '%s:last-modified-is-a-time' % f.qname, ok,
+                 'the value assigned to response.last_modified is never '
+                 'None', why, func=f, node=s)
+    R.count('R14.12', n, 20)
+
+
+_run_c14c = run
+
+
+def run(ctx, R):
+    _run_c14c(ctx, R)
+    r1412(ctx, R)
